@@ -490,35 +490,3 @@ func verifModel_json_quote(s string) string {
 	}
 	return string(append(out, '"'))
 }
-
-// verifModelRegexp_ReplaceAllString models (*regexp.Regexp).ReplaceAllString for the patterns the
-// code under test uses with possibly symbolic subjects; pattern is re.String() (always concrete).
-// `\r\n|\r|\n`: leftmost-first alternation over single bytes that cannot be part of a multi-byte
-// UTF-8 sequence, so a byte-wise scan is exact for every subject (valid UTF-8 or not).
-func verifModelRegexp_ReplaceAllString(pattern, src, repl string) string {
-	for i := 0; i < len(repl); i++ {
-		if repl[i] == '$' {
-			verifModelUnsupported("regexp replacement with $ expansion is not modelled")
-		}
-	}
-	switch pattern {
-	case `\r\n|\r|\n`:
-		var out []byte
-		for i := 0; i < len(src); {
-			switch {
-			case src[i] == '\r' && i+1 < len(src) && src[i+1] == '\n':
-				out = append(out, repl...)
-				i += 2
-			case src[i] == '\r' || src[i] == '\n':
-				out = append(out, repl...)
-				i++
-			default:
-				out = append(out, src[i])
-				i++
-			}
-		}
-		return string(out)
-	}
-	verifModelUnsupported("regexp pattern is not modelled: " + pattern)
-	return ""
-}
